@@ -23,8 +23,9 @@ Contract (taken from the property statement), checked at run time on the REAL
        those arguments;
   (I)  same initial values (initial assignments resolved) and parameter values - also
        after the base parameters were changed in both models;
-  (V)  at every state of a grid (3 states, before and after the parameter
-       change): same derived values, fluxes and derivatives.
+  (V)  on a state grid, before and after the parameter change: same derivatives at 3
+       states (`Model.__call__`), same derived values, fluxes and derivatives by name
+       (`get_args`, `get_right_hand_side`) at one state per phase.
 
 The reference is the original model M evaluated through `Model.get_args` /
 `get_right_hand_side` / `get_initial_conditions` (their correctness is C01/C13, not
@@ -401,21 +402,34 @@ def compare(m, m2):
         r = _cmp_map(pv2, m.get_parameter_values(), f"{phase}: parameter values")
         if r:
             return "parameter-values-differ", r
-        for st, t in zip(STATES, TIMES, strict=True):
-            if True:
-                want_a = m.get_args(st, t)
-                want_r = m.get_right_hand_side(st, t)
-                try:
-                    got_a = m2.get_args(st, t)
-                    got_r = m2.get_right_hand_side(st, t)
-                except Exception as e:  # noqa: BLE001
-                    return f"evaluation-raises {type(e).__name__}", f"{phase}: evaluating the rebuilt model at {st}, t={t} raises {type(e).__name__}: {e}"
-                r = _cmp_map(dict(got_a), dict(want_a), f"{phase}: values at {st}, t={t}")
-                if r:
-                    return "values-differ-at-state", r
-                r = _cmp_map(dict(got_r), dict(want_r), f"{phase}: derivatives at {st}, t={t}")
-                if r:
-                    return "derivatives-differ-at-state", r
+        names = m.get_variable_names()
+        for si, (st, t) in enumerate(zip(STATES, TIMES, strict=True)):
+            # derivatives at every state through Model.__call__ (the function integrators call) ...
+            y = [st[n] for n in names]
+            want_r = dict(zip(names, m(t, y), strict=True))
+            try:
+                got_r = dict(zip(m2.get_variable_names(), m2(t, [st[n] for n in m2.get_variable_names()]), strict=True))
+            except Exception as e:  # noqa: BLE001
+                return f"evaluation-raises {type(e).__name__}", f"{phase}: evaluating the rebuilt model at {st}, t={t} raises {type(e).__name__}: {e}"
+            r = _cmp_map(got_r, want_r, f"{phase}: derivatives at {st}, t={t}")
+            if r:
+                return "derivatives-differ-at-state", r
+            if si != (0 if phase == "as-built" else 1):
+                continue
+            # ... and every derived value, flux and derivative by name at one state per phase
+            want_a = m.get_args(st, t)
+            want_r = m.get_right_hand_side(st, t)
+            try:
+                got_a = m2.get_args(st, t)
+                got_r = m2.get_right_hand_side(st, t)
+            except Exception as e:  # noqa: BLE001
+                return f"evaluation-raises {type(e).__name__}", f"{phase}: evaluating the rebuilt model at {st}, t={t} raises {type(e).__name__}: {e}"
+            r = _cmp_map(dict(got_a), dict(want_a), f"{phase}: values at {st}, t={t}")
+            if r:
+                return "values-differ-at-state", r
+            r = _cmp_map(dict(got_r), dict(want_r), f"{phase}: derivatives at {st}, t={t}")
+            if r:
+                return "derivatives-differ-at-state", r
     return None
 
 
@@ -459,8 +473,7 @@ def check_desc(desc):
     _install_contract()
     try:
         m = build(desc)
-        m.get_args(STATES[0], 0.0)
-        m.get_right_hand_side(STATES[0], 0.0)
+        m(0.0, [STATES[0][n] for n in m.get_variable_names()])
     except Exception as e:  # noqa: BLE001
         return {"outcome": "skipped", "symptom": None, "text": f"original model not evaluable: {type(e).__name__}: {e}"}
     all_translate = all(translates(f) for f in fn_keys(desc))
